@@ -36,7 +36,7 @@ def correspond(ctx):
 
 
 def replay(ctx, obj):
-    return lanes.replay_parts(ctx, obj, {"lanes": lanes.replay, "slane": c01_slane.replay, "mainq": c02_mainq.replay, "sync_order": c02_sync.replay})
+    return lanes.replay_parts(ctx, obj, {"lanes": lanes.replay, "words": lanewords.replay, "slane": c01_slane.replay, "mainq": c02_mainq.replay, "sync_order": c02_sync.replay})
 
 TRUSTED += ["main queue (Properties_C02_mainq.v, lib/props/c02_mainq.py): " + t for t in c02_mainq.TRUSTED]
 ASSUMPTIONS += list(c02_mainq.ASSUMPTIONS)
